@@ -7,8 +7,8 @@
    stated in full and proved in stages (null struct; canonicalStructSize for every struct; end to
    end for all-default structs); the heap-level induction is open and covered by the run. *)
 From CV Require Import Value.ValueEq Value.CanonSpec Value.CanonProofs Value.CanonProofs2 Value.CanonProofs3
-                       Value.EqualM Value.CanonM Value.EqualProofs Value.CanonMProofs Value.CanonMStruct Value.Den.
-From CV Require Import Core.ReaderFacts Core.SafetyProofs.
+                       Value.EqualM Value.CanonM Value.EqualProofs Value.CanonMProofs Value.CanonMStruct Value.CanonMWords Value.Den.
+From CV Require Import Core.ReaderFacts Core.SafetyProofs Core.ArithFacts.
 Open Scope Z_scope.
 
 (* layout / version independence: values equal at the schema level (trailing default fields,
@@ -95,6 +95,19 @@ Theorem C18_canon_m_default_struct_partial : forall c fx fuel m rl s v,
   canonicalize c fx (S fuel) m rl s = (KOk empty_struct_msg, rl) /\ canon v = Some empty_struct_msg.
 Proof. exact canon_m_default_struct_partial. Qed.
 Print Assumptions C18_canon_m_default_struct_partial.
+
+(* groundwork for the heap-level induction: the pointer words the builder model writes (near
+   branch of place, tag of NewCompositeList) are the specification's pointer words *)
+Theorem C18_placed_struct_word : forall off sz raw, os_wf sz ->
+  rawStructPointer 0 sz = Some raw ->
+  withOffset raw off = struct_word off (DataSize sz / 8) (PointerCount sz).
+Proof. exact placed_struct_word. Qed.
+Print Assumptions C18_placed_struct_word.
+
+Theorem C18_placed_list_word : forall off lt n, 0 <= lt < 8 -> 0 <= n < 536870912 ->
+  withOffset (rawListPointer 0 lt n) off = list_word off lt n.
+Proof. exact placed_list_word. Qed.
+Print Assumptions C18_placed_list_word.
 
 (* consequences of the full [T2] statement together with the proved [T1] theorems *)
 Theorem C18_canon_m_layout_independent_if : canon_m_correct_statement ->
